@@ -675,6 +675,8 @@ def h_periodic(ctx, cm, nmax, unwind):
                 phase = "reverse"
             elif k == "EndReverse":
                 break
+        ctx.trace(("n", n, tuple(writes), tuple(sorted(loads.items())),
+                   tuple(seg_steps.get("forward", [])), tuple(seg_steps.get("reverse", []))))
         info = lambda: {"n": n, "cm": cm, "period": m, "disk_writes_at": writes, "loads": loads,  # noqa: E731
                         "uf": uf, "wd": wd, "rd": rd}
         exp = {"l": [c for c in range(0, n, m) if (n - 1) - c > m],
